@@ -82,6 +82,8 @@ type extraPhase struct {
 	depth      [2]int
 	initials   func() []*Initial
 	makeTarget func(w *World) target.Target
+	opts       func(o *WorldOpts) // adjusts the world options of the phase
+	probes     bool               // the phase also runs the check's probe operations
 }
 
 // deepPhase is a second search with a reduced alphabet and a larger depth bound.
@@ -202,7 +204,14 @@ func runE1(prop string) int {
 		if Tier() == "thorough" {
 			e3.Depth = x.depth[1]
 		}
+		e3.Phase = x.name
 		e3.Opts.MakeTarget = x.makeTarget
+		if x.opts != nil {
+			x.opts(&e3.Opts)
+		}
+		if !x.probes {
+			e3.Probes = nil
+		}
 		if err := e3.Run(); err != nil {
 			return fail(err)
 		}
@@ -244,7 +253,17 @@ func init() {
 	}
 	registerE1("C08", &e1Config{checker: C08Checker{}, depth: [2]int{2, 3}, frags: choiceFrags, multi: choiceMulti, initials: choiceInitials,
 		deep: &deepPhase{names: []string{"ca1", "cab", "cb1", "cpc"}, depth: [2]int{3, 4}, initials: func() []*Initial { return choiceInitials()[:1] }}})
-	registerE1("C09", &e1Config{checker: C09Checker{}, depth: [2]int{2, 3}, orphan: true, renderAll: true, probes: C09Probes, frags: smallFrags,
+	// C09's alphabet also holds two cases of a choice: a re-applied intent next to a shadowed intent in the other case
+	c09Frags := func() (map[string]*Fragment, []string) {
+		fr, names := smallFrags()
+		return mergeFrags(fr, ChoiceFragments()), append(append([]string{}, names...), "ca1", "cb1")
+	}
+	registerE1("C09", &e1Config{checker: C09Checker{}, depth: [2]int{2, 3}, orphan: true, renderAll: true, probes: C09Probes, frags: c09Frags,
+		// the same datum in another encoding: the intents' typed values carry a timestamp and the running store is
+		// rewritten (as by a device sync) before every re-submission
+		extra: []*extraPhase{{name: "resynced_running", checker: C09Checker{}, names: []string{"fa", "fb", "fd", "fg", "mk4"}, depth: [2]int{2, 2}, probes: true,
+			initials: func() []*Initial { return CoreInitials()[:2] },
+			opts:     func(o *WorldOpts) { o.ValueTimestamp = 7; o.ResyncOnProbe = true }}},
 		deep: &deepPhase{names: []string{"fa", "fa1", "fb", "fd"}, depth: [2]int{3, 4}, initials: func() []*Initial { return CoreInitials()[:1] }},
 		extraAssume: []string{"probe transitions (re-submissions) start from every state reached with fewer than depth_bound operations"}})
 }
